@@ -12,8 +12,10 @@ import (
 	"path/filepath"
 	"runtime/debug"
 	"sort"
+	"strconv"
 	"strings"
 	"sync"
+	"time"
 )
 
 // Violation is the error a check returns when the property does not hold on a case.
@@ -53,22 +55,22 @@ func Safe(f func() error) (err error) {
 
 // Recorder accumulates what one test function explored.
 type Recorder struct {
-	mu          sync.Mutex
-	Property    string         `json:"property"`
-	Test        string         `json:"test"`
-	Rule        string         `json:"rule"`
-	Exhaustive  bool           `json:"exhaustive"`
-	Evaluations int            `json:"evaluations"`
-	Nontrivial  int            `json:"nontrivial_evaluations"`
-	Classes     map[string]int `json:"classes"`
-	Excluded    map[string]int `json:"excluded"`
-	Known       map[string]int `json:"known"`
-	Samples     []any          `json:"samples"`
-	Notes       []string       `json:"notes"`
-	Capped      bool           `json:"distinct_count_capped"`
-	fps         map[uint64]struct{}
-	Fingerprints []uint64      `json:"fingerprints"`
-	maxSamples  int
+	mu           sync.Mutex
+	Property     string         `json:"property"`
+	Test         string         `json:"test"`
+	Rule         string         `json:"rule"`
+	Exhaustive   bool           `json:"exhaustive"`
+	Evaluations  int            `json:"evaluations"`
+	Nontrivial   int            `json:"nontrivial_evaluations"`
+	Classes      map[string]int `json:"classes"`
+	Excluded     map[string]int `json:"excluded"`
+	Known        map[string]int `json:"known"`
+	Samples      []any          `json:"samples"`
+	Notes        []string       `json:"notes"`
+	Capped       bool           `json:"distinct_count_capped"`
+	fps          map[uint64]struct{}
+	Fingerprints []uint64 `json:"fingerprints"`
+	maxSamples   int
 }
 
 // maxFingerprints bounds the memory of the distinct-case bookkeeping per process.
@@ -302,6 +304,53 @@ func IsKnown(property, sig string) bool {
 	return knownSigs[property][sig]
 }
 
+// ---------------------------------------------------------------------------------------------
+// process environment
+
+// Env is the process environment a case runs in. No result of the library may depend on it: the
+// statements speak of bytes, options and histories only. Case types embed it; Run and the
+// replayer apply it before the check.
+type Env struct {
+	// Local is the process time zone (time.Local) during the case: "" = the process's own, "NAME|SECONDS" = a fixed
+	// zone of that name and offset (the name may coincide with a tz-database name or abbreviation), otherwise a
+	// tz-database name.
+	Local string `json:",omitempty"`
+}
+
+var origLocal = time.Local
+
+// GetEnv makes every type embedding Env satisfy the interface Run looks for.
+func (e Env) GetEnv() Env { return e }
+
+// Apply installs the environment (and restores the original one for an empty Env).
+func (e Env) Apply() {
+	switch {
+	case e.Local == "":
+		time.Local = origLocal
+	case strings.Contains(e.Local, "|"):
+		i := strings.Index(e.Local, "|")
+		off, _ := strconv.Atoi(e.Local[i+1:])
+		time.Local = time.FixedZone(e.Local[:i], off)
+	default:
+		if loc, err := time.LoadLocation(e.Local); err == nil {
+			time.Local = loc
+		} else {
+			time.Local = origLocal
+		}
+	}
+}
+
+// Locals are process time zones worth trying: names that coincide with configured zones or with abbreviations a
+// lenient parser might accept, at offsets that differ from the real zone's.
+var Locals = []string{"UTC|20700", "PST|-28800", "EDT|-14400", "BST|3600", "America/New_York|3600", "Europe/London|-7200", "CET|7200", "Local|-12600", "Asia/Kathmandu", "Australia/Lord_Howe", "|0", "d|3600"}
+
+// ApplyEnvOf applies the environment of a case that embeds Env (and does nothing otherwise).
+func ApplyEnvOf(c any) {
+	if ec, ok := c.(interface{ GetEnv() Env }); ok {
+		ec.GetEnv().Apply()
+	}
+}
+
 // TB is the part of testing.TB / rapid.T the runner needs.
 type TB interface {
 	Fatalf(format string, args ...any)
@@ -310,6 +359,13 @@ type TB interface {
 // Run executes check on c, converting panics to violations; a violation that is not a listed
 // known finding is saved as a replay file and fails the test.
 func Run[C any](t TB, r *Recorder, c C, check func(C) error) {
+	if ec, ok := any(c).(interface{ GetEnv() Env }); ok {
+		e := ec.GetEnv()
+		e.Apply()
+		if e.Local != "" {
+			r.Class("env:process-time-zone-changed")
+		}
+	}
 	err := Safe(func() error { return check(c) })
 	if err == nil {
 		return
